@@ -589,7 +589,9 @@ func body(w *hx.W) {
 		w.CaseStr(fmt.Sprintf("%s|%d", cfg, seed))
 		w.Class(fmt.Sprintf("%s/sessions=%d/procs=%d/yield=%d", cfg.profile, cfg.sessions, cfg.procs, cfg.yield))
 	}
-	lifecycle(w, rng, w.Pick(30, 300))
+	t0 := time.Now()
+	lifecycle(w, rng, w.Pick(12, 150))
+	w.Metric("server_lifecycle_ms", time.Since(t0).Milliseconds())
 	w.Metric("distinct_interleaving_fingerprints", int64(len(fingerprints)))
 	st := lockmon.Snapshot()
 	w.Metric("lock_acquisitions_observed", st.Acquires)
